@@ -316,6 +316,12 @@ static var Range_Get(var self, var key) {
     return x;
   }
   
+  if (i < 0) {
+    return throw(IndexOutOfBoundsError, 
+      "Index '%i' out of bounds for Range of start %i, stop %i and step %i.", 
+      key, $I(r->start), $I(r->stop), $I(r->step));
+  }
+  
   if (r->step  > 0 and (r->start + r->step * i) < r->stop) {
     x->val = r->start  + r->step * i;
     return x;
